@@ -100,7 +100,11 @@ def run_impl(case, script=None):
         arg = evqe.impl_individual(case["ind"])
     try:
         with rnglog.patched(log, script=script):
-            if k == "layer":
+            if k == "make_layer":
+                out = evqe.impl_layer({"n": case["n"], "gates": case["gates"]})
+            elif k == "make_individual":
+                out = EVQEIndividual(n_qubits=case["n"], layers=tuple(evqe.impl_layer(l) for l in case["layers"]), parameter_values=tuple(case["values"]))
+            elif k == "layer":
                 out = EVQECircuitLayer.random_layer(n_qubits=case["n"], previous_layer=arg, random_seed=case["seed"])
             elif k == "individual":
                 out = EVQEIndividual.random_individual(n_qubits=case["n"], n_layers=case["n_layers"], randomize_parameter_values=case["randomize"], random_seed=case["seed"])
@@ -129,6 +133,8 @@ def do_case(ctx, case, script=None):
     k = case["kind"]
     res, decisions = run_impl(case, script)
     toks = tok_table()
+    if k in ("make_layer", "make_individual"):
+        return do_constructor_case(ctx, case, res, toks)
     stream = rnglog.g_stream(decisions, tok=toks.tok, value_of_random=lambda r: 2 * math.pi * r)
     n = case["n"] if k != "append" else case["ind"]["n"]
     ctx.tally(f"{k}:n={min(n, 13)}")
@@ -197,7 +203,66 @@ def do_case(ctx, case, script=None):
             f"{g_result(res, lambda o: g_list(g_ind(i) for i in o.individuals))}")
 
 
+def do_constructor_case(ctx, case, res, toks):
+    """validity enforced in post-init: accepted exactly if valid by the documented rules (written here
+    independently); what is raised for invalid data is compared with the model (class name)"""
+    k = case["kind"]
+    if k == "make_layer":
+        want = valid_layer({"n": case["n"], "gates": case["gates"]})
+        ctx.tally(f"make_layer:{'valid' if want else 'invalid'}")
+        g = f"CMakeLayer {g_z(case['n'])} {g_list(evqe.g_gate(x) for x in case['gates'])} {g_result(res, lambda o: evqe.g_layer(evqe.plain_layer(o)))}"
+    else:
+        ls = case["layers"]
+        want = len(ls) >= 1 and all(l["n"] == case["n"] for l in ls) and len(case["values"]) == sum(3 * n_param_gates(l) for l in ls)
+        ctx.tally(f"make_individual:{'valid' if want else 'invalid'}")
+        for v in case["values"]:
+            toks.tok(v)
+        g = (f"CMakeIndividual {g_z(case['n'])} {g_list(evqe.g_layer(l) for l in ls)} {evqe.g_values(case['values'], toks)} "
+             f"{g_result(res, lambda o: evqe.g_individual(evqe.plain_individual(o), toks))}")
+    if want and res[0] != "ok":
+        ctx.violation("oracle", f"{k}-rejects-valid", f"{k}: data that is valid by the documented rules is rejected with {res[1]}", case)
+    if not want and res[0] == "ok":
+        ctx.violation("oracle", f"{k}-accepts-invalid", f"{k}: invalid data is accepted: {case}", case)
+    if not want and res[0] == "exc" and res[1] not in (LAYER_EXC, IND_EXC):
+        ctx.tally(f"{k}:raises-{res[1]}")  # e.g. IndexError for a control index outside the tuple (observation, modelled)
+    return g
+
+
 # ------------------------------------------------------------------ generators
+def gen_make_layer_case(rng):
+    n = rng.choice([0, 1, 2, 2, 3, 3, 4])
+    l = evqe.random_valid_layer(rng, n) if n else {"n": 0, "gates": []}
+    gates = [list(g) for g in l["gates"]]
+    r = rng.random()
+    idx = lambda: rng.randint(-n - 1, n + 1)
+    if r < 0.25 or not gates:
+        pass
+    elif r < 0.6:
+        g = rng.choice(gates)
+        g[rng.randrange(1, len(g))] = idx()  # one index perturbed (negative indices wrap in tuple indexing)
+    elif r < 0.8:
+        q = rng.randrange(len(gates))
+        gates[q] = rng.choice([["I", idx()], ["R", idx()], ["C", q, idx()], ["CR", q, idx()], ["C", idx(), idx()], ["CR", idx(), idx()]])
+    elif r < 0.9:
+        gates = gates[:-1] if rng.random() < 0.5 else gates + [["I", len(gates)]]
+    else:
+        gates = [rng.choice([["I", idx()], ["R", idx()], ["C", idx(), idx()], ["CR", idx(), idx()]]) for _ in range(rng.randint(0, 4))]
+    return {"kind": "make_layer", "n": n if rng.random() < 0.9 else n + rng.choice([-1, 1]), "gates": gates}
+
+
+def gen_make_individual_case(rng):
+    n = rng.choice([0, 1, 2, 3])
+    mk = lambda m: evqe.random_valid_layer(rng, m) if m else {"n": 0, "gates": []}
+    layers = [mk(n) for _ in range(rng.choice([0, 1, 2, 3]))]
+    r = rng.random()
+    if r < 0.2 and layers:
+        layers[rng.randrange(len(layers))] = mk(n + 1)
+    count = sum(3 * n_param_gates(l) for l in layers)
+    if 0.2 <= r < 0.45:
+        count = max(0, count + rng.choice([-3, -1, 1, 3]))
+    return {"kind": "make_individual", "n": n if r < 0.9 else n + 1, "layers": layers, "values": [round(rng.uniform(-3, 3), 3) for _ in range(count)]}
+
+
 def all_valid_layers(n):
     """Every valid layer on n qubits (n <= 3: 2, 6, 20 layers)."""
     out = []
@@ -309,21 +374,27 @@ def exhaustive_paths(ctx, max_n, max_rejects):
 def run(ctx):
     ctx.rule = ("random_layer: n from 1..12 (weight on 1-3) x previous layer none / all identities / all rotations / random valid, seeds random; every (n<=2, previous layer) x 4 seeds; "
                 "random_individual n 1..12 x 1..6 layers; add_random_layers on random valid individuals x 1..4 appended layers; random_population 0..5 individuals; argument edge cases; "
-                "exhaustive decision paths of random_layer through a scripted generator (quick n<=2, thorough n<=3); distinct = distinct (arguments, seed or script); non-trivial = at least one random decision drawn")
+                "exhaustive decision paths of random_layer through a scripted generator (quick n<=3 with <=2 rejected draws per path, thorough n<=4 with <=3); distinct = distinct (arguments, seed or script); non-trivial = at least one random decision drawn")
+    if not rnglog.selftest():
+        ctx.violation("correspondence", "rnglog-selftest", "the logging Random does not reproduce random.Random on this interpreter (vlib/rnglog.py)")
     cases = []
     cdir = core.ROOT / "corpus" / "C20"
     for f in sorted(cdir.glob("*.json")) if cdir.exists() else []:
         cases.append(json.loads(f.read_text()))
     cases += edge_cases()
-    for _ in range(ctx.n(500, 12000)):
+    for _ in range(ctx.n(1200, 12000)):
         cases.append(gen_layer_case(ctx.rng))
-    for _ in range(ctx.n(120, 3000)):
+    for _ in range(ctx.n(300, 3000)):
         cases.append(gen_individual_case(ctx.rng))
-    for _ in range(ctx.n(200, 4000)):
+    for _ in range(ctx.n(400, 4000)):
         cases.append(gen_append_case(ctx.rng))
     for _ in range(ctx.n(40, 1000)):
         cases.append(gen_population_case(ctx.rng))
-    cases += list(exhaustive_paths(ctx, max_n=ctx.n(2, 3), max_rejects=ctx.n(2, 2)))
+    for _ in range(ctx.n(400, 6000)):
+        cases.append(gen_make_layer_case(ctx.rng))
+    for _ in range(ctx.n(150, 2000)):
+        cases.append(gen_make_individual_case(ctx.rng))
+    cases += list(exhaustive_paths(ctx, max_n=ctx.n(3, 4), max_rejects=ctx.n(2, 3)))
     ctx.exhaustive = False
     glits, kept = [], []
     for c in cases:
